@@ -4,6 +4,7 @@
 From Coq Require Import List String NArith ZArith Bool.
 From Piko Require Import Base.Maps Base.Strs Gossip.Types Gossip.Local Gossip.Apply.
 From Piko Require Import GossipP.LocalP GossipP.ApplyP GossipP.WatchP GossipP.MemberP.
+From Piko Require Import FD.FD Compose.LiveFD.
 Import ListNotations.
 Open Scope string_scope. Open Scope list_scope. Open Scope N_scope.
 
@@ -87,6 +88,38 @@ Proof.
   - eexists. split; [reflexivity|]. repeat split.
 Qed.
 
+(* The verdicts above take the detector's answer as given. With the REAL detector in place (Compose/LiveFD.v: the
+   accrual detector of C12 asked by UpdateLiveness for every node that is neither local nor left; the delta handler
+   reports the sender): "is marked unreachable and excluded from routing while so marked, is restored if it is heard
+   from again" - for every schedule of later liveness evaluations (clock not before t1) and of messages from anybody
+   else, a peer found unreachable at t1 is still unreachable: nothing but hearing from it restores it ... *)
+Theorem C11_silent_stays_unreachable :
+  forall (s : lstate) (p : string) (st : node_state) (t1 : Z) (nows1 : amap Z) (ops : list lop),
+  wf_c (l_c s) -> lookup p (c_nodes (l_c s)) = Some st -> p <> c_local (l_c s) -> n_left st = false ->
+  flag p (fst (ltick t1 nows1 s)) = Some true ->
+  Forall (quiet p t1) ops ->
+  flag p (lrun (fst (ltick t1 nows1 s)) ops) = Some true.
+Proof. exact silent_stays_unreachable. Qed.
+
+(* ... and hearing from it does: an evaluation at the instant of its message finds it reachable *)
+Theorem C11_heard_is_reachable :
+  forall (s : lstate) (p : string) (st : node_state) (t : Z) (nows : amap Z),
+  wf_c (l_c s) -> lookup p (c_nodes (l_c s)) = Some st -> p <> c_local (l_c s) -> n_left st = false ->
+  flag p (fst (ltick t nows (lhear p t s))) = Some false.
+Proof. exact heard_is_reachable. Qed.
+
+(* a run in which all of it happens: b is heard three times, reachable at 300, unreachable at 5000, still so at 6000
+   and 7000 although a third party is heard meanwhile, and reachable again the moment it is heard at 7100 *)
+Example C11_live_fd_example :
+  wf_c ex_c /\ lookup "b" (c_nodes ex_c) = Some (new_node "b" "10.0.0.2:7000") /\ "b" <> c_local ex_c
+  /\ flag "b" (lrun ex_s ex_ops1) = Some false
+  /\ flag "b" (fst (ltick 5000 [] (lrun ex_s ex_ops1))) = Some true
+  /\ Forall (quiet "b" 5000) ex_ops2
+  /\ flag "b" (lrun (fst (ltick 5000 [] (lrun ex_s ex_ops1))) ex_ops2) = Some true
+  /\ flag "b" (fst (ltick 7100 [] (lhear "b" 7100 (lrun (fst (ltick 5000 [] (lrun ex_s ex_ops1))) ex_ops2)))) = Some false.
+Proof. exact livefd_example. Qed.
+
+
 Print Assumptions C11_no_relearn_left.
 Print Assumptions C11_left_is_final.
 Print Assumptions C11_leave_marks_and_stamps.
@@ -95,3 +128,5 @@ Print Assumptions C11_unreachable_excluded_restored.
 Print Assumptions C11_local_immune.
 Print Assumptions C11_only_self_leaves.
 Print Assumptions C11_refuted_zombie.
+Print Assumptions C11_silent_stays_unreachable.
+Print Assumptions C11_heard_is_reachable.
